@@ -554,7 +554,7 @@ func writeEvidence(prop, tierName string, tier int, seed int64, solver string, l
 		"assumptions": []string{
 			"bounds are those coded in the harness sources under /verif/harness (sizes, sequence depths, choice sets); anything beyond them is outside the claim",
 			"int is 64 bit; integer arithmetic is modelled bit-precisely with wrap-around",
-			"intrinsics: bytes.IndexByte/Equal/EqualFold (ASCII folding), math/rand (arbitrary values), sync.Pool (always New), gobwas/pool pbytes/pbufio (fresh buffers with arbitrary content, release tracking), fmt.Errorf/Sprintf (concrete rendering), crypto/sha1 on concrete data",
+			"intrinsics: bytes.IndexByte/Equal/EqualFold (ASCII folding), math/rand (arbitrary values), sync.Pool and the generic gobwas/pool.Pool (Get returns the item most recently Put, else New()/nil), gobwas/pool pbytes/pbufio (fresh buffers with arbitrary content, release tracking), fmt.Errorf/Sprintf (concrete rendering), crypto/sha1 on concrete data",
 			"transports, destinations and callbacks are harness stubs constrained only by the io.Reader/io.Writer contracts",
 			"compress/flate, crypto/tls, net/http parsers, the Go scheduler and GC are not modelled",
 		},
